@@ -191,6 +191,8 @@ class MetaArray(type):
             if "_order" not in data:
                 data["_order"] = "C"
             _shape = data["_shape"]
+            # "C"/"F" must become an axis list for dynamic shapes as well
+            data["_order"] = mk_order(data["_order"], _shape)
             dshape = []  # find dynamic shapes
             for ii, d in enumerate(_shape):
                 if d is None:
